@@ -11,7 +11,7 @@ IsEv(name) == l <= Len(T) /\ E.e = name /\ l' = l + 1
 Has(f) == f \in DOMAIN E
 Arg(f) == IF Has(f) THEN E[f] ELSE ""
 
-TReset == IsEv("Reset") /\ login' = "none" /\ nsess' = 0 /\ pin' = InitPin /\ open' = [t \in Threads |-> FALSE]
+TReset == IsEv("Reset") /\ login' = "none" /\ nsess' = 0 /\ pin' = InitPin /\ open' = [t \in Threads |-> FALSE] /\ ro' = [t \in Threads |-> FALSE]
           /\ pend' = [t \in Threads |-> Idle] /\ nkey' = 0 /\ nracy' = 0 /\ skey' = 0 /\ bn' = E.b
 TInv   == IsEv("Inv") /\ Inv(E.t, E.c, Arg("a"), Arg("b")) /\ UNCHANGED bn
 TLin   == l <= Len(T) /\ (\E t \in Threads : Lin(t)) /\ UNCHANGED <<l, bn>>
